@@ -52,6 +52,8 @@ func runC05(c *Ctx) {
 	c.rule("P1", "every exec.Cmd created in package subprocess passes through setGroupAttrToCmd before it is returned; the attribute requests an own process group (Setpgid:true / CREATE_NEW_PROCESS_GROUP)", 2)
 	c.rule("P2", "the group kill (proc.killGroup) is reachable from cmdWrapper.Stop and from CleanKillOfCommand; killProcessAndChildren keeps its deferred Kill", 3)
 	c.rule("P7", "the kill chain is unconditional: in CleanKillOfCommand, cmdWrapper.Stop, ps.KillWithChildren and killProcessAndChildren every path to a return passes the next link of the chain (… → killGroup), except through the failing side of an error test or the nil side of a nil test", 4)
+	c.rule("P8", "the monitor's stop callback can run while Execute is blocked in Run: no lock held across Run/Wait is needed by it (exec.Cmd.Cancel alone does not cover a leader that has already exited)", 1)
+	c.rule("P9", "killGroup signals the group of a leader that is already gone: the ESRCH outcome of Getpgid does not end the function before the kill", 1)
 	c.rule("P3", "no lock held across exec.Cmd.Run/Wait is needed by the monitor's stop callback, unless exec.Cmd.Cancel is set to a function that reaches the group kill", 1)
 	c.rule("P4", "isRunning.Store(true) is followed by isRunning.Store(false) on every path to exit (Execute); stop() clears the flag on every path after stopping", 2)
 	c.rule("P5", "cmdWrapper.Stop kills the process tree (KillWithChildren on the process found from the child's pid) in its own flow before it waits for the command", 1)
@@ -205,6 +207,61 @@ func (c *Ctx) c05KillReach() {
 		}
 	})
 	c.check(sends, "P2", fname(killGroup)+"/signals", c.pos(killGroup.Pos()), "SIGKILL to the negated group id (taskkill /f /t on windows)", why)
+	// P9: a leader that has been reaped cannot be found by Getpgid any more, but its group can still have members
+	var getpgid, kill *ssa.Call
+	allInstrs(killGroup, func(in ssa.Instruction) {
+		if cl, ok := in.(*ssa.Call); ok {
+			switch calleeFull(&cl.Call) {
+			case "syscall.Getpgid":
+				getpgid = cl
+			case "syscall.Kill":
+				kill = cl
+			}
+		}
+	})
+	key9 := fname(killGroup) + "/leader-gone"
+	if getpgid == nil || kill == nil {
+		c.ok("P9", key9, c.pos(killGroup.Pos()), "no lookup of the group through the leader on this platform")
+		return
+	}
+	// the test for ESRCH on Getpgid's error, whose true side reaches the kill
+	good := false
+	for _, b := range killGroup.Blocks {
+		ifi, ok := b.Instrs[len(b.Instrs)-1].(*ssa.If)
+		if !ok {
+			continue
+		}
+		v, ts := boolTest(ifi)
+		isESRCH := false
+		switch x := v.(type) {
+		case *ssa.Call:
+			n := calleeFull(&x.Call)
+			if strings.HasSuffix(n, "commonerrors.Any") || n == "errors.Is" {
+				for _, a := range x.Call.Args {
+					for _, e := range append(variadicElems(a), a) {
+						if k, ok := constInt(stripConv(e)); ok && k == 3 {
+							isESRCH = true
+						}
+					}
+				}
+			}
+		case *ssa.BinOp:
+			for _, o := range []ssa.Value{x.X, x.Y} {
+				if k, ok := constInt(stripConv(o)); ok && k == 3 {
+					isESRCH = true
+				}
+			}
+		}
+		if !isESRCH {
+			continue
+		}
+		reach := pathPruned(killGroup, ifi, isReturn, func(i ssa.Instruction) bool { return i == ssa.Instruction(kill) }, func(bb *ssa.BasicBlock, k int) bool { return bb == b && k != ts })
+		if reach != nil {
+			good = true
+		}
+	}
+	c.check(good, "P9", key9, c.ipos(getpgid), "when Getpgid answers 'no such process' the group is signalled all the same",
+		"when the leader can no longer be found (Getpgid: ESRCH) killGroup returns without signalling the group: a leader that exited and was reaped between the SIGTERM and this call (Execute's Wait reaps it at once) leaves the other members of its group running, holding the pipes Execute waits on")
 }
 
 func (c *Ctx) c05LockFree() {
@@ -359,6 +416,15 @@ func (c *Ctx) c05LockFree() {
 		c.ok("P3", key, c.ipos(cancelPos), "lock conflict on "+conflict+" but exec.Cmd.Cancel kills the process tree without taking it")
 	default:
 		c.violate("P3", key, c.ipos(site), "the lock "+conflict+" is held for as long as the child tree keeps Run from returning, and the only reaction to the context is exec.CommandContext killing the direct child: descendants holding the output pipes keep Execute blocked and survive; no exec.Cmd.Cancel that kills the group is installed")
+	}
+	// P8: os/exec calls Cmd.Cancel only while the command has not been waited for. Once the group leader has exited on
+	// its own (and Run's Wait has reaped it) nothing invokes the hook any more, and the monitor's stop callback is the
+	// only reaction left to a cancellation: it must not need a lock that Execute holds across Run.
+	key8 := fname(exec) + "/stop-path-independent-of-the-leader"
+	if conflict == "" {
+		c.ok("P8", key8, c.pos(exec.Pos()), "the stop path needs no lock held across the child's lifetime")
+	} else {
+		c.violate("P8", key8, c.ipos(site), "the lock "+conflict+": when the group leader has already exited while members of its group still hold the output pipes, os/exec no longer calls Cmd.Cancel (the command has been waited for), the monitor's stop callback blocks on that lock, the group is not killed and Execute returns only when the members exit by themselves")
 	}
 }
 
